@@ -2,6 +2,7 @@
 import copy
 from ..runner import TestSpec, Outcome
 from ..terms import Prim, Part, PathT, show
+from . import edits
 from .. import model, build, gen as G, spec as SP
 from ..snapshot import exact
 
@@ -202,4 +203,5 @@ def body(case):
 
 
 def tests(tier):
-    return [TestSpec("modifiers", gen_case, body, {"quick": 2500, "thorough": 200000}, tape=1024, fuzz={"thorough": 40000})]
+    return [TestSpec("modifiers", gen_case, body, {"quick": 2500, "thorough": 200000}, tape=1024, fuzz={"thorough": 40000}),
+            edits.spec("select", 1200, 100000)]
